@@ -127,7 +127,7 @@ def run_c14(ctx):
     # SigMF recordings and archives (members in every order, unrelated members) and plain files read
     # back: the same samples come out, once per repetition (same scenarios and oracle as C16)
     from checks import sources
-    src_table = [e for e in sources.source_table(th) if e["block"].startswith(("SigMFSource", "FileSource")) and e["params"].get("repeat") in (1, 2)]
+    src_table = [e for e in sources.source_table(th) if e["block"].startswith(("SigMFSource", "FileSource")) and e["params"].get("repeat") in (1, 2) and e["len"] <= 5000]
     src_specs = blocks.make_specs(ctx, src_table, [], 4 if th else 2, "none", 1, probes_close=False)
     for sp in src_specs:
         sp["gid"] += 1000
